@@ -761,6 +761,21 @@ def c09_groups(tier, tag='C09'):
 IO = 'tfhe_io.cpp'
 
 
+def stream_adapter_native(group):
+    """bounded stand-in (native, not a proof) for the two stream adapters the C18 reader contracts ASSUME (tfhe_generic_streams.cpp,
+    StdIstream::fread / CIstream::fread: istream::read and ::fread are outside CBMC's C++ front end): the real library imports every proper
+    prefix and every foreign type tag of the exports of seven small objects over the C++ stream transport and of two over the FILE transport,
+    each in a forked child; a short read must leave the stream failed (C++) or terminate the process (FILE)."""
+    import nreplay
+    r = nreplay.io_r(group, {}, 'C18')
+    det = str(r.get('detail', ''))[:400].replace('\n', ' ')
+    if not r.get('confirmed') and 'satisfies the oracle' not in det:
+        raise X.ExtractionError('native stream-adapter oracle could not be run: %s' % det)
+    return [('stream_adapters.short_read_or_foreign_tag_never_accepted', not r.get('confirmed'),
+             'bounded native check of StdIstream::fread / CIstream::fread under the real readers: every proper prefix and every foreign type tag '
+             'of small exports is rejected (stream failed, or process terminated)' + ('' if not r.get('confirmed') else ': ' + det))]
+
+
 def c18_groups(tier, tag='C18'):
     gs = [Group(tag + '.read_lweSample+lweKey', 'c18_readers.c', 'h_read_lwe', extract=[(IO, 'read_lweSample'), (IO, 'read_lweKey_content')], defines={'H_LWE': None}, timeout=1200, replay='io18')]
     for (K, L) in ([(1, 2), (2, 2)] if tier == 'quick' else [(1, 1), (1, 2), (1, 3), (2, 2), (2, 3), (3, 2)]):
@@ -774,6 +789,11 @@ def c18_groups(tier, tag='C18'):
                         defines=dict(d, H_BK=None), unwind=(K + 1) * L + 3, timeout=1200, instance=dict(inst, n=2), replay='io18'))
     gs.append(Group(tag + '.read_lweKeySwitchKey_content', 'c18_readers.c', 'h_read_ks', extract=[(IO, 'read_lweKeySwitchKey_content')], defines={'H_KS': None}, unwind=10,
                     timeout=1200, instance={'n': 2, 't': 2, 'basebit': 1}, replay='io18'))
+    sg = StaticGroup(tag + '.stream_adapters.native.bounded', stream_adapter_native,
+                     note='bounded: exhaustive over prefixes / tags of seven small objects, native execution of the real library (not a proof)')
+    sg.bounded = True
+    sg.replay = 'io18'
+    gs.append(sg)
     return gs
 
 
